@@ -44,12 +44,7 @@ ASAN_EVERY = {"quick": 5, "thorough": 4}
 SIZES = list(range(0, 7))
 
 
-class _Timeout(Exception):
-    pass
-
-
-def _alarm(signum: int, frame: Any) -> None:
-    raise _Timeout()
+_Timeout = common.Timeout
 
 
 def plan(tier: str, seed: int) -> list[dict[str, Any]]:
@@ -225,12 +220,11 @@ def check_case(case: dict[str, Any], col: common.Collector) -> None:
 
 
 def run_shard(shard: dict[str, Any], col: common.Collector) -> None:
-    old = signal.signal(signal.SIGALRM, _alarm)
     for case in shard["cases"]:
-        signal.alarm(240)
         try:
-            check_case(case, col)
-        except _Timeout:
+            with common.time_limit(240):
+                check_case(case, col)
+        except common.Timeout:
             col.count("program_timeouts")
         except Exception as e:  # noqa: BLE001
             import traceback
@@ -239,8 +233,7 @@ def run_shard(shard: dict[str, Any], col: common.Collector) -> None:
                           f"unexpected {type(e).__name__}: {str(e)[:200]}",
                           {"case": case, "tb": traceback.format_exc()[-2000:]})
         finally:
-            signal.alarm(0)
-    signal.signal(signal.SIGALRM, old)
+            pass
 
 
 def replay(witness: dict[str, Any], col: common.Collector) -> None:
